@@ -32,7 +32,7 @@ META = {
     "functions": ["edge gfa2 Validation._validate_record_type_specific_info/validate_positions", "fragment Validation._validate_record_type_specific_info/validate_positions",
                   "gfa2 AlignmentType._substring_type", "LastPos", "Gfa.validate/__validate_gfa2_positions", "Line.__init__/validate"],
     "bounds": "E and F lines whose first interval is (b[$], e[$]) with b, e ANY integers 0..6 and both '$' flags, on a segment of length slen = 1..5 with sequence '*' or 'ACGT' (slen need not be the sequence length); as a line on its own (begin <= end, '$' on begin implies '$' on end) and inside a Gfa that defines the segments (additionally: no position beyond slen, '$' exactly on position slen); second interval likewise for the F external positions; the validation level 1..3 is a fixed function of the other choices (every level occurs with every rule)",
-    "timeout": {"quick": 300, "thorough": 600}, "parts": {"quick": 12, "thorough": 12}},
+    "timeout": {"quick": 400, "thorough": 900}, "parts": {"quick": 16, "thorough": 16}},
   "h_record_rules": {"kind": "L",
     "functions": ["Construction.__init__/_initialize_positional_fields/_initialize_tags/_initialize_tag", "Validate._validate_record_type_specific_info",
                   "segment LengthGFA1.validate_length", "path Validation", "edge gfa2 Validation.validate_positions", "fragment Validation", "Line.validate/validate_field"],
@@ -267,7 +267,7 @@ def h_positions(slen: int, hasseq: bool, b: int, e: int, db: bool, de: bool, fra
   pre: 1 <= slen <= 5 and 0 <= b <= 6 and 0 <= e <= 6 and 1 <= vl <= 3
   pre: frag or not ext
   pre: vl == 1 + (b + e + slen) % 3
-  pre: (b + e) % NPART == PART
+  pre: (b * 7 + e + slen) % NPART == PART
   post: _ == True
   """
   vp.enter("pos")
